@@ -1262,7 +1262,11 @@ class Pool:
         pass
 
     def on_job_process_lost(self, job, pid, exitcode):
-        job._worker_lost = (monotonic(), exitcode)
+        if job._worker_lost is None:
+            # keep the time and exit status of the first detection: later
+            # supervision passes see the same pid as gone again, but no
+            # longer know its exit status.
+            job._worker_lost = (monotonic(), exitcode)
 
     def mark_as_worker_lost(self, job, exitcode):
         try:
